@@ -97,6 +97,41 @@ def job_seed_lemmas(E, rep, tier):
              'no descendant shares the key (0, 0) of the top node (depth >= 1 below the top)')
 
 
+def job_key_injective(E, rep, tier):
+    """Relational contract of the real _Interval._set_spawn_key_and_depth (what independence of the per-node streams needs of it):
+    executed on two arbitrary non-top nodes c1, c2 of an arbitrary heap (parents with spawn_key >= 0, depth >= 0), the assigned
+    (spawn_key, depth) pairs coincide only if the parents' pairs coincide and both are children on the same side; and no child gets the
+    top node's pair (0, 0).  By induction along the two root paths, distinct nodes then own distinct pairs, i.e. distinct seeds (T4)."""
+    from contracts import tree as T
+    from pyvc.values import SymRef
+    TJ.setup(E, tier)
+    rep.under_contract(BI + '._Interval._set_spawn_key_and_depth')
+    fn = E.function(BI + '._Interval._set_spawn_key_and_depth')
+    cx = Ctx(E, [])
+    w = T.World(E, cx)
+    h = w.heap
+    c1, c2 = cx.fresh('c1', z3.IntSort()), cx.fresh('c2', z3.IntSort())
+    pre = h.snapshot()
+    p1, p2 = pre.sel('_parent', c1), pre.sel('_parent', c2)
+    for c, p in ((c1, p1), (c2, p2)):
+        cx.assume(z3.And(h.alloc(c), h.alloc(p), c != p, z3.Not(pre.sel('_midway#none', p)), pre.sel('_spawn_key', p) >= 0, pre.sel('_depth', p) >= 0))
+    cx.assume(z3.And(c1 != p2, c2 != p1))      # not parent and child of each other (their depths then differ by the depth clause below)
+    E.call_function(fn, [SymRef(c1, 'node')], {}, cx, 0, force_body=True)
+    E.call_function(fn, [SymRef(c2, 'node')], {}, cx, 0, force_body=True)
+    SK = lambda r: h.sel('_spawn_key', r)
+    D = lambda r: h.sel('_depth', r)
+    IL = lambda r: h.sel('_is_left', r)
+    same = z3.And(SK(c1) == SK(c2), D(c1) == D(c2))
+    cx.oblige('C04/_set_spawn_key_and_depth/relational.equal-keys-only-for-same-side-children-of-equal-key-parents',
+              z3.Implies(z3.And(c1 != c2, same), z3.And(pre.sel('_spawn_key', p1) == pre.sel('_spawn_key', p2), pre.sel('_depth', p1) == pre.sel('_depth', p2),
+                                                        IL(c1) == IL(c2))), 'relational', 0)
+    cx.oblige('C04/_set_spawn_key_and_depth/post.child-key-differs-from-the-top-key', z3.Not(z3.And(SK(c1) == 0, D(c1) == 0)), 'post', 0)
+    cx.oblige('C04/_set_spawn_key_and_depth/post.depth-is-parent-depth+1-and-key-nonnegative', z3.And(D(c1) == pre.sel('_depth', p1) + 1, SK(c1) >= 0), 'post', 0)
+    cx.oblige('C04/_set_spawn_key_and_depth/frame.only-own-key-and-depth-written',
+              z3.And(*[h.arr[f] is pre.arr[f] or z3.simplify(h.arr[f] == pre.arr[f]) for f in h.arr if f not in ('_spawn_key', '_depth')]), 'frame', 0)
+    rep.take(cx.obligations)
+
+
 def job_noise_shape(E, rep, tier):
     """_randn / _randn_levy draw at the full sample shape: size = top._size and (*top._size, top._size[-1])."""
     from contracts import tree as T
@@ -144,7 +179,7 @@ def job_noise_shape(E, rep, tier):
 def jobs(tier):
     P = 'C04'
     return [TJ.job_split_algebra(P, ('law',)), TJ.make(P, 'split_exact', False), Job('levy-area', job_levy),
-            Job('seed-lemmas', job_seed_lemmas), Job('noise-shape', job_noise_shape), CJ.job_constructor(P)]
+            Job('seed-lemmas', job_seed_lemmas), Job('key-injective', job_key_injective), Job('noise-shape', job_noise_shape), CJ.job_constructor(P)]
 
 
 def canaries(tier):
@@ -155,5 +190,12 @@ def canaries(tier):
         {'name': 'bridge-third-coeff', 'job': 'split-algebra', 'patches': [(B, 'third_coeff = 2 * (a * left_diff + b * right_diff) * h_reciprocal', 'third_coeff = (a * left_diff + b * right_diff) * h_reciprocal')]},
         {'name': 'halfway-assumes-equal-halves', 'job': 'split-algebra', 'patches': [(B, '            left_diff = parent._midway - parent._start\n            right_diff = parent._end - parent._midway\n', '            left_diff = parent._midway - parent._start\n            right_diff = parent._end - parent._midway\n            if self._top._halfway_tree:\n                left_diff = right_diff = 0.5 * (parent._end - parent._start)\n')]},
         {'name': 'levy-noise-broadcast-over-batch', 'job': 'noise-shape', 'patches': [(B, 'size = (*self._top._size, *self._top._size[-1:])\n        return _randn', 'size = (*self._top._size[-2:], *self._top._size[-1:])\n        return _randn')]},
+        {'name': 'spawn-key-truncated-to-32-bits', 'job': 'key-injective',
+         'patches': [(B, 'self._spawn_key = 2 * self._parent._spawn_key + (0 if self._is_left else 1)', 'self._spawn_key = (2 * self._parent._spawn_key + (0 if self._is_left else 1)) & 0xFFFFFFFF')]},
         {'name': 'children-share-seed-key', 'job': 'split_exact', 'patches': [(B, 'self._spawn_key = 2 * self._parent._spawn_key + (0 if self._is_left else 1)', 'self._spawn_key = 2 * self._parent._spawn_key')]},
     ]
+
+
+def native_replay(ob):
+    from props.base import run_native
+    return run_native('c04')
